@@ -398,6 +398,9 @@ func (w *Worker) jump(s *State, f *Frame, to *ssa.BasicBlock) {
 		if f.loops[to.Index] > w.cfg.Unwind {
 			panic(unsupported{fmt.Sprintf("UNWINDING bound %d exceeded for loop %s", w.cfg.Unwind, key)})
 		}
+	} else if f.loops != nil && f.loops[to.Index] != 0 {
+		// the loop headed by `to` is entered afresh (not through its back edge)
+		delete(f.loops, to.Index)
 	}
 	f.prev = f.block
 	f.block = to
@@ -460,7 +463,13 @@ func (w *Worker) global(s *State, g *ssa.Global) *Obj {
 	if o, ok := s.globals[g]; ok {
 		return o
 	}
-	o := s.newObj("cell", w.zero(g.Type().(*types.Pointer).Elem()))
+	et := g.Type().(*types.Pointer).Elem()
+	o := s.newObj("cell", w.zero(et))
+	// sentinel errors of packages whose initialisers are not executed (io.EOF, http.ErrAbortHandler …)
+	// are distinct opaque non-nil errors
+	if g.Pkg != nil && len(g.Pkg.Func("init").Blocks) == 0 && types.Identical(et, types.Universe.Lookup("error").Type()) {
+		o.Val = w.newError(s, w.tc.Str(g.Pkg.Pkg.Path()+"."+g.Name()))
+	}
 	s.globals[g] = o
 	return o
 }
